@@ -120,7 +120,7 @@ func (in *Interp) errorMsg(e Iface) *Term {
 			}
 		}
 	}
-	m := in.P.prog.LookupMethod(e.T, nil, "Error")
+	m := hasMethod(in.P, e.T, "Error")
 	if m == nil {
 		return in.ts.Str("<error>")
 	}
@@ -135,7 +135,7 @@ func (in *Interp) unwrapErr(e Iface) Iface {
 	if e.T == nil {
 		return Iface{}
 	}
-	m := in.P.prog.LookupMethod(e.T, nil, "Unwrap")
+	m := hasMethod(in.P, e.T, "Unwrap")
 	if m == nil {
 		return Iface{}
 	}
@@ -173,10 +173,10 @@ func (in *Interp) fmtArg(verb byte, plus bool, a Value) *Term {
 	}
 	// error / Stringer
 	if verb == 's' || verb == 'v' || verb == 'q' || verb == 'w' {
-		if m := in.P.prog.LookupMethod(v.T, nil, "Error"); m != nil && m.Signature.Params().Len() == 0 {
+		if m := hasMethod(in.P, v.T, "Error"); m != nil && m.Signature.Params().Len() == 0 {
 			return in.errorMsg(v)
 		}
-		if m := in.P.prog.LookupMethod(v.T, nil, "String"); m != nil && m.Signature.Params().Len() == 0 && m.Signature.Results().Len() == 1 {
+		if m := hasMethod(in.P, v.T, "String"); m != nil && m.Signature.Params().Len() == 0 && m.Signature.Results().Len() == 1 {
 			if p, isPtr := v.V.(Ptr); !(isPtr && p == nil) {
 				if in.P.interpretable(m) || in.P.intrinsic(m) != nil {
 					if r, ok := in.callFunc(in.cur, m, []Value{v.V}, nil, nil).(*Term); ok {
@@ -361,7 +361,7 @@ func registerStd(P *Program) {
 			// find the %w operand
 			for _, a := range va {
 				if e, ok := a.(Iface); ok && e.T != nil {
-					if m := in.P.prog.LookupMethod(e.T, nil, "Error"); m != nil {
+					if m := hasMethod(in.P, e.T, "Error"); m != nil {
 						return in.newWrapError(msg, e)
 					}
 				}
@@ -503,6 +503,48 @@ func registerStd(P *Program) {
 	})
 	r("strings.EqualFold", func(in *Interp, caller *frame, fn *ssa.Function, args []Value) Value {
 		return in.ts.Bool(strings.EqualFold(mustStr(args[0], "strings.EqualFold"), mustStr(args[1], "strings.EqualFold")))
+	})
+
+	// strings.Builder: struct{addr *Builder; buf []byte}
+	sbBuf := func(in *Interp, v Value) Ptr {
+		p := v.(Ptr)
+		if p == nil {
+			in.rtPanic("nil *strings.Builder")
+		}
+		st := (*p).(Struct)
+		return &st[1]
+	}
+	r("(*strings.Builder).WriteString", func(in *Interp, caller *frame, fn *ssa.Function, args []Value) Value {
+		b := sbBuf(in, args[0])
+		s := in.strToBytes(args[1].(*Term))
+		*b = in.appendSlices((*b).(SliceV), s)
+		return Tuple{in.lenTerm(s), Iface{}}
+	})
+	r("(*strings.Builder).WriteByte", func(in *Interp, caller *frame, fn *ssa.Function, args []Value) Value {
+		b := sbBuf(in, args[0])
+		*b = in.appendSlices((*b).(SliceV), SliceV{A: []Value{args[1]}})
+		return Iface{}
+	})
+	r("(*strings.Builder).WriteRune", func(in *Interp, caller *frame, fn *ssa.Function, args []Value) Value {
+		b := sbBuf(in, args[0])
+		rn, ok := cint(args[1])
+		if !ok {
+			panic(unsupported("WriteRune symbolic"))
+		}
+		s := in.strToBytes(in.ts.Str(string(rune(rn))))
+		*b = in.appendSlices((*b).(SliceV), s)
+		return Tuple{in.lenTerm(s), Iface{}}
+	})
+	r("(*strings.Builder).String", func(in *Interp, caller *frame, fn *ssa.Function, args []Value) Value {
+		return in.sliceStr((*sbBuf(in, args[0])).(SliceV))
+	})
+	r("(*strings.Builder).Len", func(in *Interp, caller *frame, fn *ssa.Function, args []Value) Value {
+		return in.lenTerm((*sbBuf(in, args[0])).(SliceV))
+	})
+	r("(*strings.Builder).Grow", nop)
+	r("(*strings.Builder).Reset", func(in *Interp, caller *frame, fn *ssa.Function, args []Value) Value {
+		*sbBuf(in, args[0]) = SliceV{}
+		return nil
 	})
 
 	// strconv
